@@ -333,6 +333,35 @@ def c10(tier, rng, fam='C10'):
             if how == 'swrite':
                 b.step('ucall', c=90, pay='trigger', hp=[ret(pay='t')])
             out.append(b.q().done())
+    # two connections served by one Server: the end of one (read / write failure) leaves the other alone - its handlers
+    # keep their contexts, its calls complete, new calls are served - and Stop ends both
+    for how in ('sread', 'swrite', 'stop'):
+        for park in ('recv', 'ctxwait'):
+            b = B(fam, 'two connections, %s on the first, handlers parked in %s' % (how, park), ser=True, ncli=2)
+            for conn in (1, 2):
+                b.step('ucall', c=10 * conn + 1, conn=conn, pay='u%d' % conn,
+                       hp=[dict(o='ctxwait'), ret(code=1, msg='ctx')] if (park == 'ctxwait' and (conn == 1 or how == 'stop')) else [])
+                hp = [dict(o='recv'), dict(o='recv'), ret(code=1, msg='recv ended')] if park == 'recv' else \
+                     ([dict(o='ctxwait'), ret(code=1, msg='ctx')] if (conn == 1 or how == 'stop') else [dict(o='recv')])
+                b.step('sopen', c=10 * conn + 2, conn=conn, kind='bidi', hp=hp)
+                b.step('send', c=10 * conn + 2, pay='x')
+            b.q()
+            b.step('fault', what=how, conn=1)
+            if how == 'swrite':
+                b.step('ucall', c=90, conn=1, pay='trigger', hp=[ret(pay='t')])
+            b.q()
+            if how != 'stop':
+                # the second connection is untouched
+                b.step('hop', c=21, h=ret(pay='fine'))
+                b.step('hops', c=22, hp=[dict(o='send', pay='still here'), dict(o='drain'), ret()])
+                b.step('recv', c=22).step('close', c=22).step('recv', c=22)
+                b.step('ucall', c=29, conn=2, pay='probe', hp=[ret(pay='pong')])
+                b.q()
+            if park == 'recv':
+                b.step('hop', c=11, h=ret(pay='late'))
+                if how == 'stop':
+                    b.step('hop', c=21, h=ret(pay='late'))
+            out.append(b.q().done())
     # end of connection at each step of a small mixed conversation
     base = [('ucall', 1), ('sopen', 2), ('send', 2), ('recv', 2), ('send', 2), ('close', 2), ('recv', 2), ('recv', 2)]
     for pos in range(len(base) + 1):
